@@ -80,11 +80,7 @@ func (r rec) label() string {
 
 func compileKids(kids []*S) (schema.ModelSet, string) {
 	var b strings.Builder
-	b.WriteString("module a { namespace \"urn:a\"; prefix a;")
-	for _, k := range kids {
-		b.WriteString(" " + k.yang())
-	}
-	b.WriteString(" }")
+	b.WriteString("module a { namespace \"urn:a\"; prefix a; " + schemaText(kids) + " }")
 	r := gen.Compile(map[string]string{"a": b.String()}, gen.Options{})
 	if !r.OK() {
 		return nil, fmt.Sprintf("%s: %v %v\n%s", r.Verdict(), r.Err, r.Panic, b.String())
@@ -228,6 +224,9 @@ func shapeKey(r rec) string {
 			if k.Default != "" {
 				b.WriteString("!d")
 			}
+			if k.TypedefDefault {
+				b.WriteString("!td")
+			}
 			if k.Min > 0 || k.Max > 0 {
 				fmt.Fprintf(&b, "!%d..%d", k.Min, k.Max)
 			}
@@ -269,13 +268,15 @@ func kinds(want []string) string {
 
 func runGenerated(c *engine.Ctx) {
 	if c.Quick() {
-		runGeneratedBound(c, 3, 5, 0, false)
-		runGeneratedBound(c, 4, 3, 4, false) // only the schemas with exactly 4 nodes
-		runGeneratedBound(c, 3, 4, 0, true)  // names shared between levels
+		runGeneratedBound(c, 3, 5, 0, "")
+		runGeneratedBound(c, 4, 3, 4, "")        // only the schemas with exactly 4 nodes
+		runGeneratedBound(c, 3, 4, 0, "shared")  // names shared between levels
+		runGeneratedBound(c, 3, 4, 0, "typedef") // defaults that come from a typedef
 		return
 	}
-	runGeneratedBound(c, 4, 6, 0, false)
-	runGeneratedBound(c, 4, 5, 0, true)
+	runGeneratedBound(c, 4, 6, 0, "")
+	runGeneratedBound(c, 4, 5, 0, "shared")
+	runGeneratedBound(c, 4, 5, 0, "typedef")
 }
 
 func schemaCost(kids []*S) int {
@@ -289,13 +290,17 @@ func schemaCost(kids []*S) int {
 	return n
 }
 
-// shared: the schemas are renamed so that names are unique among siblings only (RenameShared).
-func runGeneratedBound(c *engine.Ctx, sb, db, onlyCost int, shared bool) {
+// shared: "shared" = the schemas are renamed so that names are unique among siblings only (RenameShared);
+// "typedef" = every leaf without a default of its own takes a type with a default (WithTypedefDefaults).
+func runGeneratedBound(c *engine.Ctx, sb, db, onlyCost int, shared string) {
 	all := genSchemas(sb)
 	c.Note(fmt.Sprintf("%d generated schemas of <= %d nodes, data trees of <= %d nodes, names shared between levels: %v", len(all), sb, db, shared))
 	for gi, kids := range all {
-		if shared {
+		switch shared {
+		case "shared":
 			kids = RenameShared(kids)
+		case "typedef":
+			kids = WithTypedefDefaults(kids)
 		}
 		if c.Expired() {
 			return
@@ -307,8 +312,10 @@ func runGeneratedBound(c *engine.Ctx, sb, db, onlyCost int, shared bool) {
 			continue
 		}
 		if _, msg := compileKids(kids); msg != "" {
+			// the generator only produces valid YANG: a schema that does not compile is a defect of
+			// the harness (or of the compiler) and must not be skipped silently
 			c.Add("generated_schemas_rejected_by_the_compiler", 1)
-			c.Outcome("generated-schema-rejected:" + strings.SplitN(strings.SplitN(msg, "\n", 2)[0], ": ", 3)[2])
+			c.Report(engine.Violation{Key: "generated-schema-does-not-compile", Witness: schemaText(kids), Detail: msg, Harness: "generated-schema"})
 			continue
 		}
 		c.Add("schemas", 1)
